@@ -38,6 +38,7 @@ type vfRunCfg struct {
 	maxact    bool // nondet maxActiveRuns
 	dry       bool
 	repeat    bool // step s0 is a repeating step (C05.repeat)
+	timeout   bool // the DAG has a timeout (C05.timeout)
 	nilPolicy bool // also explore RetryPolicy == nil (otherwise Limit 0 stands for it)
 	metPre    bool // also explore a met precondition (otherwise "none" stands for it)
 }
@@ -79,6 +80,7 @@ func vfStepIndex(name string) int {
 type vfExec struct {
 	idx    int
 	killed bool
+	ctx    context.Context
 }
 
 func (e *vfExec) SetStdout(out io.Writer) {}
@@ -103,6 +105,11 @@ func vfOpenRuns(i int) int { return vfCount("start", i) - vfCount("end", i) }
 
 func (e *vfExec) Run() error {
 	attempt := vfCount("start", e.idx)
+	if vfCfg.timeout && e.ctx.Err() != nil {
+		// exec.CommandContext refuses to start a process once the context is done
+		vfEvent("refused", e.idx, attempt)
+		return e.ctx.Err()
+	}
 	vfEvent("start", e.idx, attempt)
 	if e.idx < vfHandlerBase {
 		if vfCfg.mon&vfMonC01 != 0 {
@@ -148,8 +155,8 @@ func (e *vfExec) Run() error {
 	}
 	vfWaitTurn("complete", e.idx, attempt)
 	fail := vfBool("fail")
-	if e.killed {
-		fail = true
+	if e.killed || (vfCfg.timeout && e.ctx.Err() != nil) {
+		fail = true // terminated by the stop signal / by the expired context
 	}
 	f := 0
 	if fail {
@@ -166,7 +173,7 @@ func (e *vfExec) Run() error {
 func vfCreator(ctx context.Context, step dag.Step) (executor.Executor, error) {
 	idx := vfStepIndex(step.Name)
 	vfEvent("create", idx, 0)
-	return &vfExec{idx: idx}, nil
+	return &vfExec{idx: idx, ctx: ctx}, nil
 }
 
 // vfSnapshotCheck: the overall status computed while the run is in progress (what the agent
@@ -235,6 +242,9 @@ func vfRun(cfg vfRunCfg) {
 	if cfg.maxact {
 		vfK = vfRange("maxActiveRuns", 0, cfg.n+1)
 		c.MaxActiveRuns = vfK
+	}
+	if cfg.timeout {
+		c.Timeout = time.Hour
 	}
 	hs := [4]bool{}
 	if cfg.handlers {
@@ -458,6 +468,34 @@ func vfFinalChecks(cfg vfRunCfg, lim, pre []int, hs [4]bool, rerr error) {
 			vfAssert(ce == 0, "C04.handlers/unconfigured-exit-handler-never-runs")
 		}
 	}
+	if cfg.mon&vfMonC05 != 0 && cfg.timeout {
+		expired := vfCount("timer-fired", -1) > 0
+		iExp := vfEventIndex("timer-fired", -1, 0)
+		if expired {
+			unfinishedAtExpiry := false
+			for i := 0; i < cfg.n; i++ {
+				// no command starts after the timeout has elapsed
+				vfAssert(vfLastEventIndex("start", i) < iExp, "C05.timeout/no-step-command-starts-after-the-timeout")
+				if vfCount("start", i) == 0 || vfLastEventIndex("end", i) > iExp {
+					unfinishedAtExpiry = true
+				}
+				vfAssert(final[i] != NodeStatusRunning && final[i] != NodeStatusNone, "C05.timeout/every-step-is-labelled-when-the-run-ends")
+			}
+			failedBefore := false
+			for i := 0; i < cfg.n; i++ {
+				if k := vfEventIndex("endfail", i, 0); k >= 0 && k < iExp {
+					failedBefore = true // a step had already failed on its own: "failed" is then a legitimate label
+				}
+			}
+			if unfinishedAtExpiry && !failedBefore {
+				st := sc.Status(g)
+				if st != StatusCancel {
+					vfClass("timed-out-run-ends-as-failed")
+				}
+				vfAssert(st == StatusCancel, "C05.timeout/timed-out-run-ends-canceled")
+			}
+		}
+	}
 	if cfg.mon&vfMonC05 != 0 && cfg.repeat {
 		vfAssert(vfCount("kill", 0) == 0, "C05.repeat/repeating-step-is-not-signalled")
 	}
@@ -544,3 +582,8 @@ func VerifHarness_RUN_C08_n3() { vfRun(vfRunCfg{n: 3, mon: vfMonC08, retries: 1,
 
 // C05.repeat: s0 repeats; a stop lets the current iteration finish and starts no further one.
 func VerifHarness_RUN_C05_rep() { vfRun(vfRunCfg{n: 2, mon: vfMonC05, stop: true, repeat: true}) }
+
+// C05.timeout: the DAG's timeout elapses at any quiescent point of the run.
+func VerifHarness_RUN_C05_timeout() {
+	vfRun(vfRunCfg{n: 2, mon: vfMonC05, retries: 1, timeout: true})
+}
